@@ -182,6 +182,9 @@ func (k *Kernel) normAddr(a uintptr) uintptr {
 }
 
 func (k *Kernel) cleanup() {
+	for name, v := range k.Stats {
+		k.sim.Counters[name] += v
+	}
 	for _, m := range k.Mappings {
 		if m.Mem != nil {
 			_ = unix.Mprotect(m.Mem, unix.PROT_READ|unix.PROT_WRITE)
@@ -951,7 +954,7 @@ func Syscall6(trap uintptr, a1, a2, a3, a4, a5, a6 interface{}) (r1, r2 uintptr,
 		}
 		ep := ed.f.ep
 		evs := unsafe.Slice((*rawEpollEvent)(ptrOf(a2)), max)
-		var deadline *time.Timer
+		var deadline *simrt.Timer
 		for {
 			if k.fds[epfd] != ed {
 				return ^uintptr(0), 0, unix.EBADF
@@ -985,7 +988,7 @@ func Syscall6(trap uintptr, a1, a2, a3, a4, a5, a6 interface{}) (r1, r2 uintptr,
 				return 0, 0, 0
 			}
 			if deadline == nil && msec > 0 {
-				deadline = time.NewTimer(time.Duration(msec) * time.Millisecond)
+				deadline = simrt.NewTimer(time.Duration(msec) * time.Millisecond)
 			}
 			w := ep.wq.add()
 			var tch <-chan time.Time
@@ -1065,9 +1068,27 @@ func (k *Kernel) findListener(network, addr string) *ListenerObj {
 	return k.listeners[lnKey(network, addr)]
 }
 
+// OwnerOfPeer returns the process that holds a descriptor of the other end of s.
+func (k *Kernel) OwnerOfPeer(s *Sock) *simrt.Proc {
+	if s == nil || s.peer == nil {
+		return nil
+	}
+	var best *fdesc
+	for _, d := range k.fds {
+		if d.f.sock == s.peer && (best == nil || d.fd < best.fd) {
+			best = d
+		}
+	}
+	if best == nil {
+		return nil
+	}
+	return best.proc
+}
+
 // Connect creates a connection to the listener bound at addr.
 func (k *Kernel) Connect(p *simrt.Proc, network, addr string) (int, *Sock, error) {
 	simrt.Yield(simrt.KSyscall, "connect")
+	k.Stats["connect"]++
 	if network == "unix" {
 		if _, err := os.Lstat(addr); err != nil {
 			return -1, nil, unix.ENOENT
